@@ -29,6 +29,7 @@ REGISTRY = {
     'X06': 'harness.x06',
     'X07': 'harness.x07',
     'X08': 'harness.x08',
+    'X09': 'harness.x09',
 }
 
 if __name__ == '__main__':
